@@ -334,6 +334,7 @@ def match_known(known, prop, v):
         witness = dict(v["case"]) if isinstance(v["case"], dict) else {"case": v["case"]}
         witness["signature"] = v.get("signature")
         witness["kind"] = v["kind"]
+        witness["observed"] = v.get("observed")
         ok = True
         for field, spec in (k.get("where") or {}).items():
             if field not in witness or not _match_field(spec, witness[field]):
@@ -498,8 +499,11 @@ def run(prop, tier, seed):
     from .jsonutil import jdump, jsonable
 
     clusters = {}
+    known = load_known()
     for v in viols:
-        sig = v["signature"]
+        # a witness covered by a recorded finding never represents (and so never hides) one that is not: the two kinds
+        # are clustered apart even when their signatures coincide
+        sig = v["signature"] if match_known(known, prop, v) is None else "known-finding/" + v["signature"]
         cur = clusters.get(sig)
         size = len(jdump(jsonable(v["case"])))
         if cur is None or size < cur[0]:
@@ -508,12 +512,12 @@ def run(prop, tier, seed):
             clusters[sig] = (size, v)
         else:
             cur[1]["dups"] = cur[1].get("dups", 0) + 1 + v.get("dups", 0)
-    known = load_known()
     n_viol = 0
     n_known = 0
     lines = []
     for sig in sorted(clusters):
         v = clusters[sig][1]
+        sig = v["signature"]
         # determinism: re-execute from the recorded case before reporting
         again = check_one(mod, v["sub"], json.loads(json.dumps(jsonable(v["case"]))) if getattr(mod, "JSON_CASES", True) else v["case"])
         diverged = not _same_failure(again, v)
